@@ -25,6 +25,10 @@ def bind {α β} (x : Outcome α) (f : α → Outcome β) : Outcome β :=
 def isPanic {α} : Outcome α → Bool
   | panic _ => true
   | _ => false
+def map {α β} (f : α → β) : Outcome α → Outcome β
+  | ok a => ok (f a)
+  | err e => err e
+  | panic s => panic s
 instance : Monad Outcome where
   pure := Outcome.ok
   bind := Outcome.bind
